@@ -307,7 +307,7 @@ func c06Same(a, b sftp.VerifPkt) bool {
 
 func checkC06(c *lib.Ctx) {
 	r := c.R
-	r.Rule = "every packet kind of both codecs (requests, responses, init/version, the four OpenSSH extensions, statvfs reply) x generated field values (ids and offsets at 0, 2^32, 2^63, 2^64-1; empty, long and non-UTF-8 strings; payloads of 0..1000 bytes; all 32 attribute-flag subsets; 0..3 extended pairs and name entries): the frame from packet.go, from the filexfer codec, from the independent harness codec and from the Lean interpreter of the regenerated layout tables must be byte-identical, the length prefix must equal the bytes that follow, and each decoder must give back the packet, both decoders must report the same fields for the same bytes; DESTINATIONS THAT ARE NOT ZERO (c06_reuse.go): one filexfer / packet.go value decodes sequences of frames (long, short, medium payloads and lists in all six orders), byte-slice fields pre-populated as make([]byte, l, c) for l, c in {0, 1, n-1, n, n+1, 2n, 2n+7} around the payload length n, Buffer.ConsumeByteSliceCopy / Buffer.UnmarshalBinary on such hints directly, RequestPacket/RawPacket.ReadFrom with one backing slice around the frame lengths, recvPacket + makePacket through one allocator with pages released and reused: every decode must equal the decode of the same bytes into a fresh zero value and re-encode to the frame; non-trivial = packet with a boundary value, non-empty attribute block, payload or list"
+	r.Rule = "every packet kind of both codecs (requests, responses, init/version, the four OpenSSH extensions, statvfs reply) x generated field values (ids and offsets at 0, 2^32, 2^63, 2^64-1; empty, long and non-UTF-8 strings; payloads of 0..1000 bytes; all 32 attribute-flag subsets; 0..3 extended pairs and name entries): the frame from packet.go, from the filexfer codec, from the independent harness codec and from the Lean interpreter of the regenerated layout tables must be byte-identical, the length prefix must equal the bytes that follow, and each decoder must give back the packet, both decoders must report the same fields for the same bytes; DESTINATIONS THAT ARE NOT ZERO (c06_reuse.go): one filexfer / packet.go value decodes sequences of frames (long, short, medium payloads and lists in all six orders), byte-slice fields pre-populated as make([]byte, l, c) for l, c in {0, 1, n-1, n, n+1, 2n, 2n+7} around the payload length n, Buffer.ConsumeByteSliceCopy / Buffer.UnmarshalBinary on such hints directly, RequestPacket/RawPacket.ReadFrom with one backing slice around the frame lengths, recvPacket + makePacket through one allocator with pages released and reused: every decode must equal the decode of the same bytes into a fresh zero value and re-encode to the frame; THE filexfer BUFFER AS A STATE MACHINE (c06_buffer.go): sequences of 1..30 operations on ONE Buffer (NewBuffer/NewMarshalBuffer/new(Buffer), every Append* and Consume*, the MarshalInto/UnmarshalFrom/UnmarshalPacketBody entry points of the codec, StartPacket, PutLength, Packet, Bytes, Len, Cap, Reset, MarshalBinary, UnmarshalBinary, short consumes) against a reference model (byte slice + read offset + sticky error; Reset and StartPacket clear all three): after every operation its result and Len()/Err/Bytes()/Cap() must agree; PRNG sequences, all sequences up to a small depth over an 11-operation alphabet, hand-written ones, and for every packet kind: encode A field by field, read it back, Reset, encode B => the frame of B by the independent codec; decode a cut body, Reset, decode a complete body => success and equal to a fresh Buffer's decode; non-trivial = packet with a boundary value, non-empty attribute block, payload or list"
 	sftp.VerifFxRegisterExtensions()
 	if c.Replay != "" {
 		var in c06ReuseIn
@@ -413,5 +413,6 @@ func checkC06(c *lib.Ctx) {
 		}
 	}
 	c06ReuseAll(c)
+	c06BufferAll(c)
 	c.Compare("c06", lines, impl)
 }
